@@ -169,6 +169,7 @@ type c13Pre struct {
 	n     int
 	lazy  bool   // gen: GenPower(n, lazy)
 	fresh bool   // pb.Value[n] = fresh encryption of x^n at (level, scale)
+	del   bool   // delete(pb.Value, n)
 	level int
 	scale uint64
 }
@@ -218,7 +219,9 @@ func (x *c13Ctx) describe(cs *c13Case) string {
 	if cs.pre != nil {
 		parts := []string{}
 		for _, p := range cs.pre {
-			if p.fresh {
+			if p.del {
+				parts = append(parts, fmt.Sprintf("d%d", p.n))
+			} else if p.fresh {
 				parts = append(parts, fmt.Sprintf("f%d:%d:%d", p.n, p.level, p.scale))
 			} else if p.lazy {
 				parts = append(parts, fmt.Sprintf("g%dl", p.n))
@@ -335,6 +338,10 @@ func (x *c13Ctx) runCase(c *Ctx, cs *c13Case) {
 	prefill := func(ct *rlwe.Ciphertext, ev schemes.Evaluator) (pb cpoly.PowerBasis, ok bool) {
 		pb = cpoly.NewPowerBasis(ct, basis)
 		for _, p := range cs.pre {
+			if p.del {
+				delete(pb.Value, p.n)
+				continue
+			}
 			if !p.fresh {
 				if err := pb.GenPower(p.n, p.lazy, ev); err != nil {
 					return pb, false
@@ -495,6 +502,43 @@ func (x *c13Ctx) runCase(c *Ctx, cs *c13Case) {
 	if cs.inv {
 		consumed = 0 // scale-invariant mode: no level is consumed
 	}
+	// the probe key of the case: the four findings of the extended quantifier have their own
+	valueKey, okKey := "C13-value-wrong", "C13-enough-levels-refused"
+	switch {
+	case cs.flagsSet && !cs.odd && !cs.even:
+		valueKey, okKey = "C13/flags-both-false-drops-constants", "C13/flags-both-false-drops-constants"
+	case cs.flagsSet && !cs.odd && cs.even:
+		valueKey, okKey = "C13/even-flag-degree0-accumulator", "C13/even-flag-degree0-accumulator"
+	}
+	if cs.inv && deg >= 1 && cs.level < int(math.Ceil(math.Log2(float64(deg)))) {
+		okKey = "C13/bfv-refuses-below-depth"
+	}
+	tooFewKey := "C13-too-few-levels"
+	if status == "panic" && cs.pre != nil {
+		okKey, tooFewKey = "C13/partial-power-basis-nil-deref", "C13/partial-power-basis-nil-deref"
+	}
+	if cs.pre != nil && !cs.hasFresh() {
+		// a basis holding only some powers (generated, possibly deleted again): never a nil dereference
+		d := ""
+		if status == "panic" {
+			d = "EvaluateFromPowerBasis panics on a partial basis: " + desc
+		}
+		c.Probe("partial_basis_no_panic", tag, "C13/partial-power-basis-nil-deref", d)
+	}
+	lazyPow2 := false // a power of two the caller generated lazily stays at degree 2: it cannot be multiplied again
+	for _, p := range cs.pre {
+		if !p.fresh && !p.del && p.lazy {
+			lazyPow2 = true // (any power left at degree 2 may be multiplied again when Evaluate generates another one from it)
+		}
+	}
+	if spec && cs.level >= consumed && !lazyPow2 && !(x.scheme == "ckks" && cs.lazy) {
+		// enough levels (none is needed in the scale-invariant mode): the evaluation must succeed
+		d := ""
+		if status != "ok" {
+			d = fmt.Sprintf("status=%s with %d levels, %d needed: %s", status, cs.level, consumed, desc)
+		}
+		c.Probe("enough_levels_ok", tag, okKey, d)
+	}
 	if status == "ok" {
 		if x.scheme == "bgv" {
 			u := make([]uint64, x.slots)
@@ -521,7 +565,7 @@ func (x *c13Ctx) runCase(c *Ctx, cs *c13Case) {
 			}
 			line += fmt.Sprintf(" lvl=%d scale=%d vals=%s ps=%s", out.Level(), out.Scale.Uint64(), vs, vs)
 			if spec {
-				c.Probe("value_bgv", tag, "C13-value-wrong", bad)
+				c.Probe("value_bgv", tag, valueKey, bad)
 				d := ""
 				if out.Scale.Cmp(target) != 0 {
 					d = fmt.Sprintf("scale %d != target %d: %s", out.Scale.Uint64(), cs.tscale, desc)
@@ -593,18 +637,13 @@ func (x *c13Ctx) runCase(c *Ctx, cs *c13Case) {
 		}
 		c.Probe("degree0_no_panic", tag, "C13-degree0-panic", d)
 	}
-	if cs.inv && cs.level < need && status == "err" {
-		// observation (tied, not probed): the scale-invariant mode consumes no level, yet Evaluate refuses
-		// an input below Depth() = ceil(log2(deg)) levels
-		c.Count("bfv:refused-below-depth-though-no-level-is-consumed")
-	}
 	if cs.level < consumed {
 		// an input with too few levels must be refused with an error
 		d := ""
 		if status != "err" {
 			d = fmt.Sprintf("status=%s: %s", status, desc)
 		}
-		c.Probe("too_few_levels_err", tag, "C13-too-few-levels", d)
+		c.Probe("too_few_levels_err", tag, tooFewKey, d)
 	}
 	c.Emit(desc, line)
 }
@@ -667,6 +706,7 @@ func (x *c13Ctx) sc(c *Ctx) uint64 {
 
 func genC13(c *Ctx) {
 	c13Pure(c)
+	c13Mod1(c)
 	maxDeg := c.Scale(31, 63)
 	logNs := []int{5}
 	if c.Thorough() {
@@ -782,8 +822,6 @@ func c13Extensions(c *Ctx, x *c13Ctx) {
 						shape = 1
 					case f.set && !f.odd && f.even:
 						shape = 2
-					case f.set && !f.odd && !f.even:
-						truthful = false
 					}
 					if f.set && f.odd != f.even && x.scheme == "bgv" && c.rng.Intn(3) == 0 {
 						shape, truthful = 0, false // flags that do not describe the coefficients
@@ -794,8 +832,10 @@ func c13Extensions(c *Ctx, x *c13Ctx) {
 					}
 					for _, cheb := range bases {
 						lvl := need + c.rng.Intn(L-need+1)
-						if inv && c.rng.Intn(3) == 0 {
-							lvl = c.rng.Intn(L + 1) // also below Depth(): no level is needed
+						if dp := int(math.Ceil(math.Log2(float64(deg)))); inv && dp >= 3 && c.rng.Intn(3) == 0 {
+							// below Depth(): no level is needed (one below: the modulus still holds the noise of the
+							// scale-invariant products, which is absolute — a result at a much lower level does not decrypt)
+							lvl = dp - 1
 						}
 						if !inv && c.rng.Intn(8) == 0 && need > 0 {
 							lvl = need - 1
@@ -823,6 +863,14 @@ func c13Extensions(c *Ctx, x *c13Ctx) {
 								for n := 2; n <= 1<<logDeg; n++ {
 									cs.pre = append(cs.pre, c13Pre{n: n})
 								}
+							}
+							if c.rng.Intn(3) == 0 {
+								// the caller dropped a power again: a basis holding X^4 without X^2, X^8 without X^4, …
+								n := 2
+								if c.rng.Intn(2) == 0 {
+									n = 2 + c.rng.Intn(1<<logDeg)
+								}
+								cs.pre = append(cs.pre, c13Pre{n: n, del: true})
 							}
 							if variant == 2 {
 								// a fresh encryption of x^n in place of / in addition to the generated powers
